@@ -79,7 +79,13 @@ def respawn_case(rng):
 
 def gen(rng, tier):
     quick = tier == "quick"
-    n = 2400 if quick else 40000
+    n = 2400 if quick else 100000
+    # regression: the schedule that stranded a task on the old worker loop (0 permanent workers,
+    # 1 ms linger, second submit_or_spawn sleeping up to 3 ms inside its critical section), and
+    # ThreadPool::shut_down racing with / following ThreadGroup::shut_down (twice)
+    for k in range(12 if quick else 100):
+        yield f"0 1000 s5s 0 {k + 1} 0,0 100,3000 20000 -1 0 1 1 0 0"
+        yield f"1 0 s3b,s 100 {k + 1} 20,300 100,800 1000 {900 + 20 * k} 0 1 2 0 2"
     for _ in range(4 if quick else 40):
         yield respawn_case(rng)
     for i in range(n):
